@@ -22,6 +22,8 @@ func tgtScope() *hcl.EvalContext {
 		"up": cty.UnknownVal(cty.String).Refine().NotNull().StringPrefix("he").NewValue(),
 		"un": cty.UnknownVal(cty.Number),
 		"ur": cty.UnknownVal(cty.Number).Refine().NotNull().NumberRangeInclusive(n(0), n(1)).NewValue(),
+		"ux": cty.UnknownVal(cty.Number).Refine().NotNull().NumberRangeLowerBound(n(1), false).NewValue(),
+		"uy": cty.UnknownVal(cty.Number).Refine().NotNull().NumberRangeUpperBound(n(1), false).NumberRangeLowerBound(n(0), true).NewValue(),
 		"ub": cty.UnknownVal(cty.Bool),
 		"ul": cty.UnknownVal(cty.List(cty.Number)).Refine().NotNull().CollectionLengthLowerBound(1).CollectionLengthUpperBound(2).NewValue(),
 		"um": cty.UnknownVal(cty.Map(cty.String)),
@@ -34,7 +36,7 @@ func tgtScope() *hcl.EvalContext {
 	}}
 }
 
-var tgtAtoms = []string{"du", "us", "up", "un", "ur", "ub", "ul", "um", "uo", "mp[us]", "mp[up]", "l[ur]", "l[un]", "mt[ur]", "ls[1]", "o.b", "uo.a",
+var tgtAtoms = []string{"du", "us", "up", "un", "ur", "ux", "uy", "ux", "uy", "ub", "ul", "um", "uo", "mp[us]", "mp[up]", "l[ur]", "l[un]", "mt[ur]", "ls[1]", "o.b", "uo.a",
 	"ul[0]", "um[\"a\"]", "ul[*]", "[for x in ul : x]", "{for k, v in um : k => v}", "\"${us}\"", "\"x-${up}\"", "ur + 1", "un * 0", "ur < 5", "us == \"a\"",
 	"ub && false", "ub || true", "[ur, 1]", "{a = us}", "[du]", "mt[ur]"}
 
@@ -43,7 +45,7 @@ var tgtCtx = []string{"false ? H : 1", "true ? 1 : H", "true ? \"1\" : H", "fals
 	"H ? 1 : 2", "H || true", "false && H", "!H", "-H", "H + 1 > 0", "H < 2", "{(H) = 1}", "upper(H)", "isnull(H)", "H[0]", "l[H]", "mp[H]", "length_of_H",
 	"[H, H]", "{a = H}", "H == H", "[for x in [H] : x][0]", "\"%{ if H }a%{ else }b%{ endif }\"", "\"%{ for x in H }${x}%{ endfor }\""}
 
-var tgtCond = []string{"false ? H : 1", "true ? 1 : H", "true ? \"1\" : H", "false ? H : l", "ub ? H : l", "ub ? H : 1", "ub ? [H] : l", "true ? [1] : [H]",
+var tgtCond = []string{"ub ? H : 1", "ub ? 1 : H", "ub ? H : 0", "ub ? H : ur", "ub ? ux : H", "ub ? H : uy", "us == \"a\" ? H : 1", "false ? H : 1", "true ? 1 : H", "true ? \"1\" : H", "false ? H : l", "ub ? H : l", "ub ? H : 1", "ub ? [H] : l", "true ? [1] : [H]",
 	"false ? [H] : l", "true ? {a = 1} : {a = H}", "ub ? {a = H} : {a = 1}", "ur < 5 ? H : 1"}
 var tgtCons = []string{"(H) == 1", "(H) == \"1\"", "(H) != null", "[H][0]", "\"${H}\"", "\"a${H}b\"", "(H) == [10, 20]", "(H)[0] == 10", "H == H", "isnull(H)",
 	"[for x in [H] : x][0]", "(H) == {a = 1}", "{a = H}.a == 1"}
